@@ -46,6 +46,9 @@ var (
 	// Plan steers the probes: key "req:<flow>/<processor key>" or "res:<flow>/<processor key>" ->
 	// "" (no condition), a condition name, or "early" (request direction only).
 	Plan = map[string]string{}
+	// ReportCurrentType makes the probes report the current stream type in their output (as
+	// most shipped processors do) instead of StreamTypeAny.
+	ReportCurrentType bool
 	// Limit aborts a transaction (panic with ErrLimit) when more than Limit processors were
 	// executed for it (0 = no limit): the bounded-step oracle of C05.
 	Limit int
@@ -79,10 +82,14 @@ func (p *probeProc) Execute(flow string, a publictypes.APIStreamI) (streamtypes.
 	if out == "early" {
 		out = ""
 	}
-	if d == "req" {
-		return streamtypes.ProcessorIO{Type: publictypes.StreamTypeAny, Name: out, ReqAction: &actions.NoOpAction{}}, nil
+	typ := publictypes.StreamTypeAny
+	if ReportCurrentType {
+		typ = a.GetType()
 	}
-	return streamtypes.ProcessorIO{Type: publictypes.StreamTypeAny, Name: out, RespAction: &actions.NoOpAction{}}, nil
+	if d == "req" {
+		return streamtypes.ProcessorIO{Type: typ, Name: out, ReqAction: &actions.NoOpAction{}}, nil
+	}
+	return streamtypes.ProcessorIO{Type: typ, Name: out, RespAction: &actions.NoOpAction{}}, nil
 }
 
 type wrapped struct {
